@@ -8,6 +8,7 @@ import (
 	goat "github.com/avos-io/goat"
 	"runtime"
 	"sync"
+	"sync/atomic"
 	"testing"
 	"time"
 
@@ -40,6 +41,9 @@ type C07Case struct {
 	Cause bool `json:"cause,omitempty"`
 	// Stats: a (do-nothing) stats handler is installed on the server and on the client connection
 	Stats bool `json:"stats,omitempty"`
+	// ResetStallMs: the transport write that carries the caller's reset takes this long (a congested but reliable
+	// transport: 0.2 to 5 s of virtual time, well inside the half minute the library allows for it) before it completes
+	ResetStallMs int `json:"reset_stall_ms,omitempty"`
 }
 
 func genC07(t *rapid.T) C07Case {
@@ -66,6 +70,7 @@ func genC07(t *rapid.T) C07Case {
 	c.ParkSend = c.Kind != kit.KindServer && !c.Close && rapid.IntRange(0, 3).Draw(t, "park_send") == 0
 	c.Cause = rapid.IntRange(0, 3).Draw(t, "cause") == 0
 	c.Stats = rapid.IntRange(0, 2).Draw(t, "stats") == 0
+	c.ResetStallMs = rapid.SampledFrom([]int{0, 0, 0, 200, 2000, 5000}).Draw(t, "reset_stall_ms")
 	return c
 }
 
@@ -139,6 +144,7 @@ type c07Run struct {
 	res                 kit.RunResult
 	id                  uint64
 	handlerCtxDoneAfter bool
+	resetStalled        bool
 	openErr             error
 	wire                []kit.StreamFacts
 }
@@ -202,6 +208,7 @@ func runC07(t *testing.T, c C07Case, pos int) *c07Run {
 		}
 		cancelled := make(chan struct{})
 		postDone := make(chan struct{})
+		var preDone atomic.Bool
 		var cs grpcClientStream
 		go func() {
 			defer close(postDone)
@@ -215,6 +222,7 @@ func runC07(t *testing.T, c C07Case, pos int) *c07Run {
 			if r.clog.Snapshot().RecvEnd != nil {
 				_ = cs.Trailer() // permitted as soon as a receive has returned an error (here: the cancellation)
 			}
+			preDone.Store(true)
 			<-cancelled
 			// receives after the cancellation: unread+2 of them
 			for i := 0; i < (c.NH-c.Read)+2; i++ {
@@ -289,9 +297,20 @@ func runC07(t *testing.T, c C07Case, pos int) *c07Run {
 			}
 		}
 		parkedDone := make(chan struct{})
+		isParked := func(x *kit.Rpc) bool { return string(unwrapBytes(x.GetBody().GetData())) == "parked" }
+		// (The stall is only staged when no operation of the caller is pending: the library writes the reset while holding
+		// the stream's mutex, a pending receive woken by the cancellation queues for that mutex, and a goroutine queueing
+		// for a mutex is never "durably blocked" - the bubble could neither settle nor let time pass.)
+		stall := c.ResetStallMs > 0 && preDone.Load() && !c.ParkSend
+		isStalledReset := func(x *kit.Rpc) bool {
+			return stall && x.GetReset_() != nil && x.GetHeader().GetMethod() == kit.FullMethod("t")
+		}
+		if stall {
+			l.A.Hold(isStalledReset)
+		}
 		if c.ParkSend && r.openErr == nil && cs != nil {
 			// a slow transport write (legal) in which the caller's SendMsg sits when the context ends
-			l.A.Hold(func(x *kit.Rpc) bool { return string(unwrapBytes(x.GetBody().GetData())) == "parked" })
+			l.A.Hold(func(x *kit.Rpc) bool { return isParked(x) || isStalledReset(x) })
 			go func() {
 				defer close(parkedDone)
 				r.parkedSend = kit.Observe(kit.SendBytes(cs, []byte("parked")))
@@ -307,6 +326,11 @@ func runC07(t *testing.T, c C07Case, pos int) *c07Run {
 			cancel()
 		}
 		kit.Settle()
+		if stall && !kit.MutexWaiters() {
+			r.resetStalled = true
+			time.Sleep(time.Duration(c.ResetStallMs) * time.Millisecond) // the reset's transport write is still in progress
+			kit.Settle()
+		}
 		l.A.Hold(nil)
 		l.ReleaseAll()
 		kit.Settle()
@@ -467,6 +491,9 @@ func execC07(t *testing.T, c C07Case) (v Verdict) {
 			r = runC07(t, c, p)
 		}
 		kit.G().Count("positions", 1)
+		if r.resetStalled {
+			kit.G().Count("positions_with_stalled_reset_write", 1)
+		}
 		if msg := judgeC07(c, p, r); msg != "" {
 			v.failf("%s", msg)
 			failPos, failRun = p, r
@@ -474,7 +501,7 @@ func execC07(t *testing.T, c C07Case) (v Verdict) {
 		}
 	}
 	unread := c.NH - c.Read
-	labels := []string{"kind=" + kit.KindNames[c.Kind], fmt.Sprintf("unread=%d", unread), fmt.Sprintf("deadline=%v", c.Deadline), fmt.Sprintf("cause=%v", c.Cause), fmt.Sprintf("stats=%v", c.Stats),
+	labels := []string{"kind=" + kit.KindNames[c.Kind], fmt.Sprintf("unread=%d", unread), fmt.Sprintf("deadline=%v", c.Deadline), fmt.Sprintf("cause=%v", c.Cause), fmt.Sprintf("stats=%v", c.Stats), fmt.Sprintf("reset_write_stalls=%v", c.ResetStallMs > 0),
 		fmt.Sprintf("bystanders=%d", c.Unary+c.Streams), "htmpl=" + c.HTmpl, fmt.Sprintf("close=%v", c.Close), fmt.Sprintf("park_send=%v", c.ParkSend)}
 	if unread >= 3 {
 		labels = append(labels, "unread>=3")
